@@ -187,17 +187,21 @@ def replyFor (why : Why) (t : Bytes) : Bool :=
   | .command => isReply 7 t
   | .addrType => isReply 8 t
 
-/-- **The negotiation property on one observation.**  `input`: every byte the application sent;
-`res`: what the parser returned (`none` = error); `written`: every byte it wrote back; `consumed`:
-how many input bytes it took from the connection.  `expect` renders the RFC's reading of the request
-in the parser's result type. -/
-def holdsNeg {β : Type} [DecidableEq β] (pf : Profile) (expect : Nat → Addr → Nat → β)
-    (input : Bytes) (res : Option β) (written : Bytes) (consumed : Nat) : Bool :=
-  match decodeNeg pf input with
+/-- An observation agrees with a verdict.  `res`: what the parser returned (`none` = error);
+`written`: every byte it wrote back; `consumed`: how many input bytes it took from the connection.
+`expect` renders the RFC's reading of the request in the parser's result type. -/
+def agrees {β : Type} [DecidableEq β] (expect : Nat → Addr → Nat → β) (v : Verdict)
+    (res : Option β) (written : Bytes) (consumed : Nat) : Bool :=
+  match v with
   | .accept cmd a port used pre =>
     decide (res = some (expect cmd a port)) && written == pre && consumed == used
   | .reject why used pre =>
     res.isNone && decide (consumed ≤ used) && pre.isPrefixOf written && replyFor why (written.drop pre.length)
+
+/-- **The negotiation property on one observation.**  `input`: every byte the application sent. -/
+def holdsNeg {β : Type} [DecidableEq β] (pf : Profile) (expect : Nat → Addr → Nat → β)
+    (input : Bytes) (res : Option β) (written : Bytes) (consumed : Nat) : Bool :=
+  agrees expect (decodeNeg pf input) res written consumed
 
 /-- The listener's profile: no authentication; CONNECT and UDP ASSOCIATE. -/
 def listenerProfile : Profile := ⟨0, none, [1, 3]⟩
@@ -225,6 +229,10 @@ structure HsObs where
   consumed : Nat
 deriving DecidableEq, Repr
 
+/-- The observation made of a run on `input` that returned `hs` and left `left` bytes unread
+(the driver builds the implementation's observation with the same function). -/
+def hsObs (input : Bytes) (hs : Hs) (left : Nat) : HsObs := ⟨hs, input.length - left⟩
+
 def holdsHs (c : IPText) (input : Bytes) (o : HsObs) : Bool :=
   holdsNeg listenerProfile (hsExpect c) input o.hs.out.res o.hs.written o.consumed
 
@@ -233,6 +241,8 @@ structure AdObs where
   ad : Ad
   consumed : Nat
 deriving DecidableEq, Repr
+
+def adObs (input : Bytes) (ad : Ad) (left : Nat) : AdObs := ⟨ad, input.length - left⟩
 
 def holdsAd (c : IPText) (cfg : AdCfg) (input : Bytes) (o : AdObs) : Bool :=
   holdsNeg (adapterProfile cfg) (adExpect c) input o.ad.out.res o.ad.written o.consumed
@@ -275,6 +285,13 @@ structure UObs where
   again : Option (Bytes × UOut)
 deriving DecidableEq, Repr
 
+/-- What the relay does with a datagram and, on the way back, with its result (model side). -/
+def udpObs (c : IPText) (data : Bytes) : UObs :=
+  match parseUDPHeader c data with
+  | .fail e => ⟨.fail e, none⟩
+  | .ok d => ⟨.ok d, some (buildUDPHeader c d.host d.port d.payload,
+      parseUDPHeader c (buildUDPHeader c d.host d.port d.payload))⟩
+
 /-- **The datagram property on one observation**: the first parse is the RFC's reading of `data`
 (payload intact, or dropped); the rebuilt header is again an RFC datagram, read as the RFC reads
 it, with the same destination, port and payload. -/
@@ -297,6 +314,9 @@ structure BObs where
   built : Bytes
   parsed : UOut
 deriving DecidableEq, Repr
+
+def buildObs (c : IPText) (host : Text) (port : Nat) (payload : Bytes) : BObs :=
+  ⟨buildUDPHeader c host port payload, parseUDPHeader c (buildUDPHeader c host port payload)⟩
 
 def holdsBuild (c : IPText) (host : Text) (port : Nat) (payload : Bytes) (o : BObs) : Bool :=
   decide (o.parsed.res = udpExpect c o.built) &&
